@@ -57,8 +57,17 @@ The fragment (static types mirror what `erg --mode typecheck` infers; probed on 
   expressions additionally: if(c, (do: a), (do: b)), f(args, kw := e), len(e), abs(e), l[lit], l + l, [e, ...]
 
   Erg printer rules (so that parsing precedence, property C11, cannot interfere): every non-atomic operand is
-  parenthesised, negative literals in operand position are parenthesised, print! is always written `print!(...)`,
-  `not` is written as a call, blocks are always multi-line.
+  parenthesised, negative literals in operand position are parenthesised, print! / assert / if-expressions are always
+  written as calls `print!(...)`, `assert(...)`, `if(c, (do: a), (do: b))` (`print! (a) + b` would parse as
+  `print!(a) + b`, `if c, do: a, do: b` as a one-armed if whose arm is a tuple), `not` is written as a call, blocks are
+  always multi-line, a block never ends with a definition (syntax error in Erg), the condition of an if! statement
+  never starts with `(` (Gen.stmt_cond).
+  Things the generator avoids on purpose (erg rejects or mistypes them; see the C01 report): Float == Float (Float is
+  not Eq), list index by a non-literal, `**` with an Int operand, arithmetic on a numeric if-expression or a variable
+  bound to one (Gen.noenum / Ex.enum; known finding known_enum_arith), Int/Nat-mixed arms of an if-expression,
+  Nat -> Float coercion by annotation or argument passing (erg prints 3.0 where Python prints 3), TAB and bidi
+  characters in strings, Nat literals >= 2**64 and Int literals < -2**31 (syntax errors).
+  In expr_only programs every variable is used (erg removes unused definitions: optimisation, property C12).
 
   Wrap code .w of an expression (what codegen.rs emit_expr wraps the value in; used only by Codegen.v):
       0 none  1 Nat  2 Int  3 Float  4 Str  5 Bool  6 List
